@@ -209,6 +209,13 @@ STREAM_B = ['[1000.200] <2> wl_display#1.get_registry(new id wl_registry#2)',
             '[1000.800] <2>  -> wl_display#1.delete_id(3)']
 
 
+# a connection that frees its registry and asks for a new one: id 2 is legitimately handed out again
+STREAM_R = ['[1000.100] <1>  -> wl_display#1.get_registry(new id wl_registry#2)',
+            '[1000.300] <1> wl_display#1.delete_id(2)',
+            '[1000.500] <1>  -> wl_display#1.get_registry(new id wl_registry#2)',
+            '[1000.700] <1>  -> wl_registry#2.bind(1, "wl_t", 1, new id [unknown]#3)']
+
+
 def _render(lines):
     from core import wl, matcher, util
     from core.connection_manager import ConnectionManager
@@ -239,7 +246,11 @@ def interleave(ctx, case):
     sa, sb = (case[2], case[3]) if len(case) > 2 else (0, 0)
     _quiet()
     # a stream may start after its get_registry (the log began later): then the role is unknown
-    A, B = STREAM_A[sa:sa + na], STREAM_B[sb:sb + nb]
+    if sa == 'R':
+        sa = 0
+        A, B = STREAM_R[:na], STREAM_B[sb:sb + nb]
+    else:
+        A, B = STREAM_A[sa:sa + na], STREAM_B[sb:sb + nb]
     if sa == 9:
         # the tag's first line names an object the tool never saw created (the log began mid-way): reported, but the tag is known from then on
         A = ['[999.900] <1> wl_display#1.delete_id(77)'] + STREAM_A[1:1 + na]
@@ -341,7 +352,7 @@ def obligations(tier):
            'streams of <= 4 + <= 4 lines, all order-preserving interleavings (exhaustive)', interleave,
            cases=[(a, b) for a in range(0, 5) for b in range(0, 5) if a + b > 0 and (tier != 'quick' or a + b <= 6)] +
                  [(a, b, x, y) for (x, y) in ((1, 0), (0, 1), (1, 1)) for a in (1, 2, 3) for b in (1, 2, 3) if x + a <= 4 and y + b <= 4 and (tier != 'quick' or a + b <= 4)] +
-                 [(a, b, 9, 0) for a in (1, 2) for b in (0, 1, 2)]),
+                 [(a, b, 9, 0) for a in (1, 2) for b in (0, 1, 2)] + [(a, b, 'R', 0) for a in (3, 4) for b in (0, 2)]),
         Ob('header-tag', 'symx', 'tag-like text inside string arguments never decides the connection', FUNCS[8:9], '3 header tags x queue or not x 6 payloads x 2 directions', header_tag, cases=[None]),
         Ob('frame-reachable', 'symx', 'reachability twin', FUNCS[:6], '', twin, cases=[(('new', 'obj'), 'x')], expect_cex=True),
     ]
